@@ -117,6 +117,9 @@ func BuildCertPool() (*CertPool, error) {
 		{"srv-expired", "p256", ServerName, []string{ServerName}, false, time.Date(1990, 1, 1, 0, 0, 0, 0, time.UTC), time.Date(1995, 1, 1, 0, 0, 0, 0, time.UTC)},
 		{"srv-future", "p256", ServerName, []string{ServerName}, false, time.Date(2050, 1, 1, 0, 0, 0, 0, time.UTC), time.Date(2060, 1, 1, 0, 0, 0, 0, time.UTC)},
 		{"cli-expired", "p256", "client.verif.test", []string{"client.verif.test"}, false, time.Date(1990, 1, 1, 0, 0, 0, 0, time.UTC), time.Date(1995, 1, 1, 0, 0, 0, 0, time.UTC)},
+		// valid when a run starts (the bubble clock starts at 2000-01-01 00:00:00), expired ten virtual minutes later
+		{"srv-short", "p256", ServerName, []string{ServerName}, false, good0, time.Date(2000, 1, 1, 0, 10, 0, 0, time.UTC)},
+		{"cli-short", "p256", "client.verif.test", []string{"client.verif.test"}, false, good0, time.Date(2000, 1, 1, 0, 10, 0, 0, time.UTC)},
 	}
 	for i, sp := range specs {
 		var key crypto.Signer
